@@ -232,6 +232,15 @@ func c13Run(r *mon.Run) {
 		for _, s := range []string{"0e0", "0e2", "-0E+5", "0e-1"} { // pinned witnesses of the recorded finding
 			c13GrammarP(r, s, true)
 		}
+		// exponents at the machine-word boundaries (judged for not panicking / not exhausting memory)
+		for _, e := range []string{"2147483647", "2147483648", "4294967295", "4294967296", "9223372036854775806", "9223372036854775807", "9223372036854775808",
+			"18446744073709551615", "18446744073709551616", "1000001", "1000000", "999999"} {
+			for _, m := range []string{"1", "12", "1.5", "-1", "0.001", "123456789012345678901234567890"} {
+				for _, sign := range []string{"", "+", "-"} {
+					c13Grammar(r, m+"e"+sign+e)
+				}
+			}
+		}
 		for _, s := range []string{"", " 1", "1 ", "１", "1e99999999999999999999", "1e-99999999999999999999", "0." + strings.Repeat("0", 500) + "1", "1e18446744073709551617", "-", "1e1048577"} {
 			c13Grammar(r, s)
 		}
